@@ -97,6 +97,12 @@ type renderer struct {
 	sb    strings.Builder
 	st    *Style
 	spans []Span
+	// paste extraction
+	paste        func(label, kind string, depth int) string
+	macros       *macroSet
+	depth        int
+	lastPaste    string
+	lastPasteKey string
 	// afterText is true when the previous thing was free text (description): no comment/blank may follow directly
 	afterText bool
 }
@@ -189,6 +195,9 @@ func (rd *renderer) annot(a string) string {
 
 // directive writes "<indent><keyword> <params><annotation>" and returns the keyword offset.
 func (rd *renderer) directive(level int, keyword string, params []string, annotation string) int {
+	if keyword != "PASTE" {
+		rd.lastPaste = ""
+	}
 	rd.filler(level)
 	rd.sb.WriteString(rd.indent(level))
 	begin := rd.sb.Len()
@@ -398,10 +407,66 @@ func (rd *renderer) withChildren(level int, has bool, f func()) {
 	if paren {
 		rd.open(level)
 	}
+	rd.lastPaste = ""
 	f()
+	rd.lastPaste = ""
 	if paren {
 		rd.close(level)
 	}
+}
+
+// macroAdmits: kinds that may stand directly inside a MACRO.
+func macroAdmits(kind string) bool {
+	switch kind {
+	case "INFO", "Title", "Version", "Description", "SERVER", "BaseUrl", "URL", "GET", "POST", "PUT", "PATCH", "DELETE",
+		"Body", "Request", "response", "Path", "Headers", "Query", "TYPE", "ENUM":
+		return true
+	}
+	return false
+}
+
+func parentLabel(label string) string {
+	if i := strings.LastIndex(label, "/"); i > 0 {
+		return label[:i]
+	}
+	return ""
+}
+
+// macroSet collects the macro bodies produced by paste extraction.
+type macroSet struct {
+	n     int
+	order []string
+	bufs  map[string]*renderer
+}
+
+// elem renders one element (a directive with everything below it). With a paste hook the element may be moved
+// into a macro: a PASTE is written in its place (once per run of consecutive elements going to the same macro).
+func (rd *renderer) elem(label, kind string, level int, f func(r *renderer, level int)) {
+	if rd.paste != nil && macroAdmits(kind) {
+		if rd.paste(label, kind, rd.depth) != "" {
+			// one macro per run of consecutive extracted elements
+			name := rd.lastPaste
+			key := fmt.Sprintf("%d|%s", level, parentLabel(label))
+			if name != "" && rd.lastPasteKey != key {
+				name = "" // a run never crosses into another parent
+			}
+			rd.lastPasteKey = key
+			if name == "" {
+				rd.macros.n++
+				name = fmt.Sprintf("@mac%d", rd.macros.n)
+				rd.macros.bufs[name] = &renderer{st: rd.st, paste: rd.paste, macros: rd.macros, depth: rd.depth + 1}
+				rd.macros.order = append(rd.macros.order, name)
+				rd.directive(level, "PASTE", []string{name}, "")
+				rd.lastPaste = name
+			}
+			mb := rd.macros.bufs[name]
+			f(mb, 1)
+			mb.lastPaste = ""
+			return
+		}
+	}
+	rd.lastPaste = ""
+	f(rd, level)
 }
 
 func (rd *renderer) bodyHost(level int, label, keyword string, annotation string, headers *SNode, b Body, depth int) {
@@ -416,20 +481,23 @@ func (rd *renderer) bodyHost(level int, label, keyword string, annotation string
 		rd.bodyLinesB(level+1, lines, !hasChildren)
 	}
 	si := rd.span(label, keyword, begin, rd.sb.Len(), depth)
-	// explicit parentheses only where the directive has no body of its own
 	f := func() {
 		if headers != nil {
-			hb := rd.directive(level+1, "Headers", nil, "")
-			rd.bodyLines(level+2, SchemaLines(headers, true))
-			rd.span(label+"/headers", "Headers", hb, rd.sb.Len(), depth+1)
+			rd.elem(label+"/headers", "Headers", level+1, func(r *renderer, lv int) {
+				hb := r.directive(lv, "Headers", nil, "")
+				r.bodyLines(lv+1, SchemaLines(headers, true))
+				r.span(label+"/headers", "Headers", hb, r.sb.Len(), depth+1)
+			})
 		}
 		if b.AsChild {
-			p, l := bodyParams(b)
-			bb := rd.directive(level+1, "Body", p, "")
-			if l != nil {
-				rd.bodyLines(level+2, l)
-			}
-			rd.span(label+"/body", "Body", bb, rd.sb.Len(), depth+1)
+			rd.elem(label+"/body", "Body", level+1, func(r *renderer, lv int) {
+				p, l := bodyParams(b)
+				bb := r.directive(lv, "Body", p, "")
+				if l != nil {
+					r.bodyLines(lv+1, l)
+				}
+				r.span(label+"/body", "Body", bb, r.sb.Len(), depth+1)
+			})
 		}
 	}
 	if lines != nil {
@@ -450,66 +518,122 @@ func (rd *renderer) method(level int, m *Method, depth int) {
 	si := rd.span(label, m.Verb, begin, rd.sb.Len(), depth)
 	has := m.Description != nil || m.Tags != nil || m.Query != nil || m.PathDecl != nil || m.Request != nil || len(m.Responses) > 0
 	rd.withChildren(level, has, func() {
+		desc := func() {
+			rd.elem(label+"/description", "Description", level+1, func(r *renderer, lv int) {
+				r.description(lv, label+"/description", m.Description, depth+1)
+			})
+		}
 		if m.Description != nil && m.DescFirst {
-			rd.description(level+1, label+"/description", m.Description, depth+1)
+			desc()
 		}
 		if m.Tags != nil {
+			rd.lastPaste = ""
 			b := rd.directive(level+1, "Tags", m.Tags, "")
 			rd.span(label+"/tags", "Tags", b, rd.sb.Len(), depth+1)
 		}
 		if m.PathDecl != nil {
-			b := rd.directive(level+1, "Path", nil, "")
-			rd.bodyLines(level+2, SchemaLines(m.PathDecl, true))
-			rd.span(label+"/path", "Path", b, rd.sb.Len(), depth+1)
+			rd.elem(label+"/path", "Path", level+1, func(r *renderer, lv int) {
+				b := r.directive(lv, "Path", nil, "")
+				r.bodyLines(lv+1, SchemaLines(m.PathDecl, true))
+				r.span(label+"/path", "Path", b, r.sb.Len(), depth+1)
+			})
 		}
 		if m.Query != nil {
-			var p []string
-			if m.Query.Example != "" {
-				p = append(p, rd.param(m.Query.Example))
-			}
-			if m.Query.Format != "" {
-				p = append(p, m.Query.Format)
-			}
-			b := rd.directive(level+1, "Query", p, "")
-			rd.bodyLines(level+2, SchemaLines(m.Query.Schema, true))
-			rd.span(label+"/query", "Query", b, rd.sb.Len(), depth+1)
+			rd.elem(label+"/query", "Query", level+1, func(r *renderer, lv int) {
+				var p []string
+				if m.Query.Example != "" {
+					p = append(p, r.param(m.Query.Example))
+				}
+				if m.Query.Format != "" {
+					p = append(p, m.Query.Format)
+				}
+				b := r.directive(lv, "Query", p, "")
+				r.bodyLines(lv+1, SchemaLines(m.Query.Schema, true))
+				r.span(label+"/query", "Query", b, r.sb.Len(), depth+1)
+			})
 		}
 		if m.Description != nil && !m.DescFirst {
-			rd.description(level+1, label+"/description", m.Description, depth+1)
+			desc()
 		}
 		if m.Request != nil {
-			rd.bodyHost(level+1, label+"/request", "Request", "", m.Request.Headers, m.Request.Body, depth+1)
+			rd.elem(label+"/request", "Request", level+1, func(r *renderer, lv int) {
+				r.bodyHost(lv, label+"/request", "Request", "", m.Request.Headers, m.Request.Body, depth+1)
+			})
 		}
 		for i, rs := range m.Responses {
-			rd.bodyHost(level+1, fmt.Sprintf("%s/response#%d", label, i), rs.Code, rs.Annotation, rs.Headers, rs.Body, depth+1)
+			i, rs := i, rs
+			rd.elem(fmt.Sprintf("%s/response#%d", label, i), "response", level+1, func(r *renderer, lv int) {
+				r.bodyHost(lv, fmt.Sprintf("%s/response#%d", label, i), rs.Code, rs.Annotation, rs.Headers, rs.Body, depth+1)
+			})
 		}
 	})
 	rd.finish(si)
 }
 
-func (rd *renderer) block(b *Block) {
+func blockLabel(b *Block) (label, kind string) {
 	switch b.Kind {
 	case "info":
-		begin := rd.directive(0, "INFO", nil, "")
+		return "info", "INFO"
+	case "server":
+		return "server:" + b.Name, "SERVER"
+	case "type":
+		return "type:" + b.Name, "TYPE"
+	case "enum":
+		return "enum:" + b.Name, "ENUM"
+	case "tag":
+		return "tag:" + b.Name, "TAG"
+	case "url", "rpcurl":
+		return "url:" + b.Path, "URL"
+	case "method":
+		return "method:" + b.Method.Verb + " " + b.Method.Path, b.Method.Verb
+	case "macro":
+		return "macro:" + b.Name, "MACRO"
+	case "paste":
+		return "paste:" + b.Name, "PASTE"
+	case "include":
+		return "include:" + b.Name, "INCLUDE"
+	case "raw":
+		return "raw", "raw"
+	}
+	return b.Kind, b.Kind
+}
+
+func (rd *renderer) block(b *Block) {
+	label, kind := blockLabel(b)
+	rd.elem(label, kind, 0, func(r *renderer, lv int) { r.blockAt(b, lv) })
+}
+
+func (rd *renderer) blockAt(b *Block, L int) {
+	switch b.Kind {
+	case "info":
+		begin := rd.directive(L, "INFO", nil, "")
 		si := rd.span("info", "INFO", begin, rd.sb.Len(), 0)
-		rd.withChildren(0, true, func() {
-			tb := rd.directive(1, "Title", []string{rd.param(b.Title)}, "")
-			rd.span("info/title", "Title", tb, rd.sb.Len(), 1)
+		rd.withChildren(L, true, func() {
+			rd.elem("info/title", "Title", L+1, func(r *renderer, lv int) {
+				tb := r.directive(lv, "Title", []string{r.param(b.Title)}, "")
+				r.span("info/title", "Title", tb, r.sb.Len(), 1)
+			})
 			if b.Version != "" {
-				vb := rd.directive(1, "Version", []string{rd.param(b.Version)}, "")
-				rd.span("info/version", "Version", vb, rd.sb.Len(), 1)
+				rd.elem("info/version", "Version", L+1, func(r *renderer, lv int) {
+					vb := r.directive(lv, "Version", []string{r.param(b.Version)}, "")
+					r.span("info/version", "Version", vb, r.sb.Len(), 1)
+				})
 			}
 			if b.Description != nil {
-				rd.description(1, "info/description", b.Description, 1)
+				rd.elem("info/description", "Description", L+1, func(r *renderer, lv int) {
+					r.description(lv, "info/description", b.Description, 1)
+				})
 			}
 		})
 		rd.finish(si)
 	case "server":
-		begin := rd.directive(0, "SERVER", []string{b.Name}, b.Annotation)
+		begin := rd.directive(L, "SERVER", []string{b.Name}, b.Annotation)
 		si := rd.span("server:"+b.Name, "SERVER", begin, rd.sb.Len(), 0)
-		rd.withChildren(0, true, func() {
-			bb := rd.directive(1, "BaseUrl", []string{rd.param(b.BaseURL)}, "")
-			rd.span("server:"+b.Name+"/baseurl", "BaseUrl", bb, rd.sb.Len(), 1)
+		rd.withChildren(L, true, func() {
+			rd.elem("server:"+b.Name+"/baseurl", "BaseUrl", L+1, func(r *renderer, lv int) {
+				bb := r.directive(lv, "BaseUrl", []string{r.param(b.BaseURL)}, "")
+				r.span("server:"+b.Name+"/baseurl", "BaseUrl", bb, r.sb.Len(), 1)
+			})
 		})
 		rd.finish(si)
 	case "type":
@@ -524,13 +648,13 @@ func (rd *renderer) block(b *Block) {
 		default:
 			params = append(params, b.Notation)
 		}
-		begin := rd.directive(0, "TYPE", params, b.Annotation)
+		begin := rd.directive(L, "TYPE", params, b.Annotation)
 		if lines != nil {
-			rd.bodyLines(1, lines)
+			rd.bodyLines(L+1, lines)
 		}
 		rd.span("type:"+b.Name, "TYPE", begin, rd.sb.Len(), 0)
 	case "enum":
-		begin := rd.directive(0, "ENUM", []string{b.Name}, b.Annotation)
+		begin := rd.directive(L, "ENUM", []string{b.Name}, b.Annotation)
 		var lines []string
 		lines = append(lines, "[")
 		for i, v := range b.EnumVals {
@@ -547,64 +671,69 @@ func (rd *renderer) block(b *Block) {
 			lines = append(lines, "  "+t)
 		}
 		lines = append(lines, "]")
-		rd.bodyLines(1, lines)
+		rd.bodyLines(L+1, lines)
 		rd.span("enum:"+b.Name, "ENUM", begin, rd.sb.Len(), 0)
 	case "tag":
-		begin := rd.directive(0, "TAG", []string{b.Name}, b.Annotation)
+		begin := rd.directive(L, "TAG", []string{b.Name}, b.Annotation)
 		si := rd.span("tag:"+b.Name, "TAG", begin, rd.sb.Len(), 0)
-		rd.withChildren(0, b.Description != nil, func() {
-			rd.description(1, "tag:"+b.Name+"/description", b.Description, 1)
+		rd.withChildren(L, b.Description != nil, func() {
+			rd.description(L+1, "tag:"+b.Name+"/description", b.Description, 1)
 		})
 		rd.finish(si)
 	case "url":
-		begin := rd.directive(0, "URL", []string{rd.param(b.Path)}, "")
+		begin := rd.directive(L, "URL", []string{rd.param(b.Path)}, "")
 		si := rd.span("url:"+b.Path, "URL", begin, rd.sb.Len(), 0)
-		rd.withChildren(0, true, func() {
+		rd.withChildren(L, true, func() {
 			if b.Tags != nil {
-				tb := rd.directive(1, "Tags", b.Tags, "")
+				rd.lastPaste = ""
+				tb := rd.directive(L+1, "Tags", b.Tags, "")
 				rd.span("url:"+b.Path+"/tags", "Tags", tb, rd.sb.Len(), 1)
 			}
 			if b.PathDecl != nil {
-				pb := rd.directive(1, "Path", nil, "")
-				rd.bodyLines(2, SchemaLines(b.PathDecl, true))
-				rd.span("url:"+b.Path+"/path", "Path", pb, rd.sb.Len(), 1)
+				rd.elem("url:"+b.Path+"/path", "Path", L+1, func(r *renderer, lv int) {
+					pb := r.directive(lv, "Path", nil, "")
+					r.bodyLines(lv+1, SchemaLines(b.PathDecl, true))
+					r.span("url:"+b.Path+"/path", "Path", pb, r.sb.Len(), 1)
+				})
 			}
 			for _, m := range b.Methods {
-				rd.method(1, m, 1)
+				m := m
+				rd.elem("method:"+m.Verb+" "+m.Path, m.Verb, L+1, func(r *renderer, lv int) { r.method(lv, m, 1) })
 			}
 		})
 		rd.finish(si)
 	case "rpcurl":
-		begin := rd.directive(0, "URL", []string{rd.param(b.Path)}, "")
+		begin := rd.directive(L, "URL", []string{rd.param(b.Path)}, "")
 		si := rd.span("url:"+b.Path, "URL", begin, rd.sb.Len(), 0)
-		rd.withChildren(0, true, func() {
-			pb := rd.directive(1, "Protocol", []string{"json-rpc-2.0"}, "")
+		rd.lastPaste = ""
+		rd.withChildren(L, true, func() {
+			pb := rd.directive(L+1, "Protocol", []string{"json-rpc-2.0"}, "")
 			rd.span("url:"+b.Path+"/protocol", "Protocol", pb, rd.sb.Len(), 1)
 			if b.Tags != nil {
-				tb := rd.directive(1, "Tags", b.Tags, "")
+				tb := rd.directive(L+1, "Tags", b.Tags, "")
 				rd.span("url:"+b.Path+"/tags", "Tags", tb, rd.sb.Len(), 1)
 			}
 			for _, m := range b.RPC {
 				label := "rpc:" + m.Name + " " + b.Path
-				mb := rd.directive(1, "Method", []string{rd.param(m.Name)}, m.Annotation)
+				mb := rd.directive(L+1, "Method", []string{rd.param(m.Name)}, m.Annotation)
 				mi := rd.span(label, "Method", mb, rd.sb.Len(), 1)
 				has := m.Description != nil || m.Tags != nil || m.Params != nil || m.Result != nil
-				rd.withChildren(1, has, func() {
+				rd.withChildren(L+1, has, func() {
 					if m.Tags != nil {
-						tb := rd.directive(2, "Tags", m.Tags, "")
+						tb := rd.directive(L+2, "Tags", m.Tags, "")
 						rd.span(label+"/tags", "Tags", tb, rd.sb.Len(), 2)
 					}
 					if m.Description != nil {
-						rd.description(2, label+"/description", m.Description, 2)
+						rd.description(L+2, label+"/description", m.Description, 2)
 					}
 					if m.Params != nil {
-						b2 := rd.directive(2, "Params", nil, "")
-						rd.bodyLines(3, SchemaLines(m.Params, true))
+						b2 := rd.directive(L+2, "Params", nil, "")
+						rd.bodyLines(L+3, SchemaLines(m.Params, true))
 						rd.span(label+"/params", "Params", b2, rd.sb.Len(), 2)
 					}
 					if m.Result != nil {
-						b2 := rd.directive(2, "Result", nil, "")
-						rd.bodyLines(3, SchemaLines(m.Result, true))
+						b2 := rd.directive(L+2, "Result", nil, "")
+						rd.bodyLines(L+3, SchemaLines(m.Result, true))
 						rd.span(label+"/result", "Result", b2, rd.sb.Len(), 2)
 					}
 				})
@@ -613,42 +742,78 @@ func (rd *renderer) block(b *Block) {
 		})
 		rd.finish(si)
 	case "method":
-		rd.method(0, b.Method, 0)
+		rd.method(L, b.Method, 0)
 	case "macro":
-		begin := rd.directive(0, "MACRO", []string{b.Name}, "")
+		begin := rd.directive(L, "MACRO", []string{b.Name}, "")
 		si := rd.span("macro:"+b.Name, "MACRO", begin, rd.sb.Len(), 0)
-		rd.open(0)
+		rd.open(L)
 		for _, c := range b.MacroBody {
-			rd.block(c)
+			rd.blockAt(c, L+1)
 		}
-		rd.close(0)
+		rd.close(L)
 		rd.finish(si)
 	case "paste":
-		begin := rd.directive(0, "PASTE", []string{b.Name}, "")
+		begin := rd.directive(L, "PASTE", []string{b.Name}, "")
 		rd.span("paste:"+b.Name, "PASTE", begin, rd.sb.Len(), 0)
+	case "include":
+		begin := rd.directive(L, "INCLUDE", []string{rd.param(b.Name)}, "")
+		rd.span("include:"+b.Name, "INCLUDE", begin, rd.sb.Len(), 0)
+	case "raw":
+		rd.filler(L)
+		rd.sb.WriteString(b.Name)
+		rd.afterText = false
 	}
 }
 
-// Render turns the model into text. With a nil style the canonical form is produced.
-func Render(m *Model, st *Style) *Rendered {
-	rd := &renderer{st: st}
-	rd.sb.WriteString("JSIGHT 0.3\n")
+// RenderOpts adds the transformations that work at rendering time.
+type RenderOpts struct {
+	Style *Style
+	// Paste: return a macro name to move the element with this label into that macro (PASTE written in place).
+	Paste func(label, kind string, depth int) string
+	// MacrosFirst puts the produced MACRO definitions before the other blocks instead of after them.
+	MacrosFirst bool
+	// NoHeader omits the JSIGHT line (included files).
+	NoHeader bool
+}
+
+// RenderWith renders with options.
+func RenderWith(m *Model, o RenderOpts) *Rendered {
+	rd := &renderer{st: o.Style, paste: o.Paste, macros: &macroSet{bufs: map[string]*renderer{}}}
 	for _, b := range m.Blocks {
 		rd.block(b)
 	}
-	text := rd.sb.String()
-	if st != nil && st.Newline != "" && st.Newline != "\n" {
-		// offsets in Spans refer to the LF text; callers that need spans render with LF
-		text = strings.ReplaceAll(text, "\n", st.Newline)
+	var macros strings.Builder
+	// a macro body may itself have produced macros while being rendered: iterate until stable
+	for i := 0; i < len(rd.macros.order); i++ {
+		name := rd.macros.order[i]
+		macros.WriteString("MACRO " + name + "\n(\n" + rd.macros.bufs[name].sb.String() + ")\n")
 	}
-	return &Rendered{Text: text, Spans: rd.spans}
+	head := "JSIGHT 0.3\n"
+	if o.NoHeader {
+		head = ""
+	}
+	text := head + rd.sb.String() + macros.String()
+	spans := rd.spans
+	if o.MacrosFirst {
+		text = head + macros.String() + rd.sb.String()
+		spans = nil
+	} else {
+		for i := range spans {
+			spans[i].Begin += len(head)
+			spans[i].End += len(head)
+			spans[i].FullEnd += len(head)
+		}
+	}
+	if o.Style != nil && o.Style.Newline != "" && o.Style.Newline != "\n" {
+		text = strings.ReplaceAll(text, "\n", o.Style.Newline)
+	}
+	return &Rendered{Text: text, Spans: spans}
 }
+
+// Render turns the model into text. With a nil style the canonical form is produced.
+func Render(m *Model, st *Style) *Rendered { return RenderWith(m, RenderOpts{Style: st}) }
 
 // RenderBlocks renders a list of blocks without the JSIGHT line (included files, fragments).
 func RenderBlocks(blocks []*Block, st *Style) string {
-	rd := &renderer{st: st}
-	for _, b := range blocks {
-		rd.block(b)
-	}
-	return rd.sb.String()
+	return RenderWith(&Model{Blocks: blocks}, RenderOpts{Style: st, NoHeader: true}).Text
 }
